@@ -119,3 +119,26 @@ class LossMinimizationWiring(E2Contract):
 class LossMinimizationWiringC13(LossMinimizationWiring):
     prop = "C13"
     name = "LossMinimizationEstimator: no state carried between datasets"
+
+
+# ------------------------------------------------------------------ callee contracts the optimality claim rests on, re-checked under C11
+
+from .C12_all import SquaredError as _SquaredError, RelativeEntropy as _RelativeEntropy  # noqa: E402
+from .C10_all import ConstraintWiring as _ConstraintWiring  # noqa: E402
+
+
+class LossValueAndGradient(_SquaredError):
+    """C12's contract of the squared-error losses (value == formula, gradient == d value, fast == generic): what the line search and the descent direction rest on"""
+    prop = "C11"
+    name = "squared-error losses: value, gradient, fast == generic [callee contract of the minimiser]"
+
+
+class EntropyLossValueAndGradient(_RelativeEntropy):
+    prop = "C11"
+    name = "relative-entropy losses: value, gradient, fast == generic [callee contract of the minimiser]"
+
+
+class ProjectionInstalled(_ConstraintWiring):
+    """C10's contract: the projection the iterates are mapped through is the one the constraint flags and the option's iteration limits name"""
+    prop = "C11"
+    name = "installed projection [callee contract of the minimiser]"
